@@ -268,6 +268,7 @@ func (g *Gen) Verify(c *Contract) (s *Session) {
 	}()
 	fx := &fnExec{g: g, s: s, fn: fn, c: c, boxed: map[string]TV{}, strLits: map[string]StrV{}, penv: map[string]TV{}, lets: map[string]TV{}}
 	fr := g.newFrame(fx, fn, c)
+	fr.top = true
 	st := &State{heap: map[string]string{}, now: s.decl("now0", SInt), reach: "true"}
 	fx.pre = st.clone()
 	// parameters
@@ -377,37 +378,41 @@ func (fx *fnExec) finish(fr *frame, exits []*Exit) {
 		}
 		return
 	}
-	// merge returns
-	var edges []edge
 	for _, e := range rets {
-		edges = append(edges, edge{st: e.St, cond: e.St.reach})
+		fx.checkPost(e)
 	}
-	final := fr.mergeStates(fn.Blocks[0], edges)
+}
+
+// checkPost emits the postcondition obligations for one normal exit.
+func (fx *fnExec) checkPost(e *Exit) {
+	if e.Checked {
+		return
+	}
+	e.Checked = true
+	s, c, fn := fx.s, fx.c, fx.fn
 	rt := fn.Signature.Results()
+	final := e.St
 	env := fx.baseEnv(final)
 	switch rt.Len() {
 	case 0:
 	case 1:
-		var vs []Val
-		for _, e := range rets {
-			vs = append(vs, e.Results[0])
-		}
-		bindResults(env, rt, fr.mergeVals(rt.At(0).Type(), edges, vs))
+		bindResults(env, rt, e.Results[0])
 	default:
-		var vs []Val
-		for _, e := range rets {
-			vs = append(vs, TupleV{V: e.Results})
-		}
-		bindResults(env, rt, fr.mergeVals(rt, edges, vs))
+		bindResults(env, rt, TupleV{V: e.Results})
 	}
+	suffix := ""
+	if fx.nret > 0 {
+		suffix = fmt.Sprintf("@r%d", fx.nret)
+	}
+	fx.nret++
 	if c.PanicKind == "always" {
-		s.oblig("post", "never-returns", append([]string{"C03"}, c.Props...), final.reach, "false", fx.posOf(fn.Pos()), "function declared `panics always` has a normal exit")
+		s.oblig("post", "never-returns"+suffix, append([]string{"C03"}, c.Props...), final.reach, "false", fx.posOf(e.Pos), "function declared `panics always` has a normal exit")
 	}
-	for k, e := range c.Ensures {
-		label := e.Label
+	for k, en := range c.Ensures {
+		label := en.Label
 		if label == "" {
 			label = fmt.Sprint(k)
 		}
-		s.oblig("post", label, c.tagsFor(e), final.reach, fx.evalBool(e.E, env), fx.posOf(fn.Pos()), e.Src)
+		s.oblig("post", label+suffix, c.tagsFor(en), final.reach, fx.evalBool(en.E, env), fx.posOf(e.Pos), en.Src)
 	}
 }
